@@ -15,7 +15,7 @@ def stream_query(cfg, order, ln):
 
 def build(tier):
     qs = []
-    cfgs = [(2, 3, 3, 1), (3, 3, 3, 1), (3, 4, 4, 1), (4, 3, 3, 1)] if tier == "quick" else \
+    cfgs = [(2, 3, 3, 1), (3, 3, 3, 1), (3, 4, 4, 1), (4, 3, 3, 1), (3, 5, 3, 1)] if tier == "quick" else \
            [(2, 3, 3, 1), (3, 3, 3, 1), (3, 4, 4, 1), (4, 3, 3, 1), (2, 4, 4, 2), (4, 4, 3, 2), (1, 3, 3, 1)]
     for ci, cfg in enumerate(cfgs):
         k, r, n1, sd = cfg
